@@ -14,14 +14,16 @@ struct RunObs {
     first: Option<usize>, // source index (1-based) of the first answered token
     end: usize,           // cursor location after the run
     pulled: usize,        // items the source iterator has yielded so far (Stream kinds), 0 otherwise
+    sfrom: Option<(usize, usize)>, // InputRef::span_from(cursor..) after the run, where the kind is an ExactSizeInput
 }
 
 /// drive one input through the runs; `idx` maps a token back to its source index
-fn drive<'a, I, F>(input: I, runs: &[(usize, usize)], idx: F, pulled: Rc<Cell<usize>>) -> Result<Vec<RunObs>, String>
+fn drive<'a, I, F, S>(input: I, runs: &[(usize, usize)], idx: F, pulled: Rc<Cell<usize>>, sf: S) -> Result<Vec<RunObs>, String>
 where
     I: ValueInput<'a>,
     I::Token: Clone,
     F: Fn(&I::Token) -> usize + 'a,
+    S: Fn(&mut InputRef<'a, '_, I, extra::Default>) -> Option<(usize, usize)> + 'a,
 {
     let log: Rc<RefCell<Vec<RunObs>>> = Rc::new(RefCell::new(vec![]));
     let err: Rc<RefCell<Option<String>>> = Rc::new(RefCell::new(None));
@@ -58,7 +60,8 @@ where
             }
             cps.insert(cur, inp.save());
             let end = I::cursor_location(inp.cursor().inner());
-            log2.borrow_mut().push(RunObs { n, first, end, pulled: pulled.get() });
+            let sfrom = sf(inp);
+            log2.borrow_mut().push(RunObs { n, first, end, pulled: pulled.get(), sfrom });
         }
         Ok(())
     });
@@ -73,6 +76,17 @@ where
     }
     let out = log.borrow().clone();
     Ok(out)
+}
+
+/// span_from(cursor..) of an input whose spans are SimpleSpan<usize>
+macro_rules! sf_simple {
+    () => {
+        |inp: &mut InputRef<'_, '_, _, extra::Default>| {
+            let c = inp.cursor();
+            let s = inp.span_from(&c..);
+            Some((s.start, s.end))
+        }
+    };
 }
 
 fn tok(i: usize) -> char {
@@ -106,9 +120,11 @@ fn check_one(rec: &J, st: &mut Stats) {
             },
             end: h["end"].as_u64().unwrap() as usize,
             pulled: h["pulled"].as_u64().unwrap() as usize,
+            sfrom: Some((h["sfrom"].as_u64().unwrap() as usize, h["sto"].as_u64().unwrap() as usize)),
         })
         .collect();
     let want_plain: Vec<RunObs> = want_stream.iter().map(|r| RunObs { pulled: 0, ..r.clone() }).collect();
+    let want_io: Vec<RunObs> = want_plain.iter().map(|r| RunObs { sfrom: None, ..r.clone() }).collect();
     let src: Vec<char> = (1..=n).map(tok).collect();
     let bytes: Vec<u8> = (1..=n).map(byte).collect();
     let chidx = |c: &char| (*c as u32 - 0x4E00) as usize;
@@ -118,19 +134,26 @@ fn check_one(rec: &J, st: &mut Stats) {
         let pulled = Rc::new(Cell::new(0usize));
         let p2 = pulled.clone();
         let it = src.clone().into_iter().inspect(move |_| p2.set(p2.get() + 1));
-        results.push(("stream", drive(Stream::from_iter(it), &runs, chidx, pulled), &want_stream));
+        results.push(("stream", drive(Stream::from_iter(it), &runs, chidx, pulled, sf_simple!()), &want_stream));
     }
     {
         let pulled = Rc::new(Cell::new(0usize));
         let p2 = pulled.clone();
         let it = src.clone().into_iter().inspect(move |_| p2.set(p2.get() + 1));
-        results.push(("boxed stream", drive(Stream::from_iter(it).boxed(), &runs, chidx, pulled), &want_stream));
+        results.push(("exact-size boxed stream", drive(Stream::from_iter(it).exact_size_boxed(), &runs, chidx, pulled, sf_simple!()), &want_stream));
+    }
+    let want_boxed: Vec<RunObs> = want_stream.iter().map(|r| RunObs { sfrom: None, ..r.clone() }).collect();
+    {
+        let pulled = Rc::new(Cell::new(0usize));
+        let p2 = pulled.clone();
+        let it = src.clone().into_iter().inspect(move |_| p2.set(p2.get() + 1));
+        results.push(("boxed stream", drive(Stream::from_iter(it).boxed(), &runs, chidx, pulled, |_| None), &want_boxed));
     }
     // IoInput over an in-memory reader (byte values repeat every 251 positions: drive_io compares values per position)
     {
-        results.push(("io", drive_io(&bytes, &runs), &want_plain));
+        results.push(("io", drive_io(&bytes, &runs), &want_io));
     }
-    results.push(("slice", drive(&src[..], &runs, chidx, Rc::new(Cell::new(0))), &want_plain));
+    results.push(("slice", drive(&src[..], &runs, chidx, Rc::new(Cell::new(0)), sf_simple!()), &want_plain));
     for (kind, got, want) in results {
         // Answers and cursor locations are compared exactly.  How far AHEAD a Stream pulls is its own business (the batch
         // size is not part of the property): the pull count only has to cover what was answered, never exceed the source,
@@ -138,7 +161,7 @@ fn check_one(rec: &J, st: &mut Stats) {
         let ok = match &got {
             Ok(g) => {
                 g.len() == want.len()
-                    && g.iter().zip(want.iter()).all(|(a, b)| a.n == b.n && a.first == b.first && a.end == b.end)
+                    && g.iter().zip(want.iter()).all(|(a, b)| a.n == b.n && a.first == b.first && a.end == b.end && a.sfrom == b.sfrom)
                     && (want.iter().all(|w| w.pulled == 0)
                         || (g.iter().all(|a| a.pulled >= a.end && a.pulled <= n) && g.windows(2).all(|w| w[0].pulled <= w[1].pulled)))
             }
@@ -190,7 +213,7 @@ fn drive_io(bytes: &[u8], runs: &[(usize, usize)]) -> Result<Vec<RunObs>, String
             }
             cps.insert(cur, inp.save());
             let end = <I as Input>::cursor_location(inp.cursor().inner());
-            log2.borrow_mut().push(RunObs { n, first, end, pulled: 0 });
+            log2.borrow_mut().push(RunObs { n, first, end, pulled: 0, sfrom: None });
         }
         Ok(())
     });
